@@ -136,6 +136,11 @@ pub enum Op {
     Stop {
         slot: usize,
     },
+    /// stop() wrapped in a timeout: given up (its future dropped) if the marker cannot be queued in time
+    StopTo {
+        slot: usize,
+        ms: u64,
+    },
     Kill {
         slot: usize,
     },
